@@ -145,6 +145,13 @@ def valid_pool(name, rng, size):
             if runs:
                 i = rng.choice(runs[:1] + runs)
                 cands.append(s[:i] + "0" + s[i:])
+        if rng.random() < 0.4:
+            # the same base with other short endings of the scheme and with a short prefix (harness/pools.py)
+            from harness import pools
+            nb = pools.tail_neighbours(name, s, rng)
+            pref = [t for t in nb if t.endswith(s.split(":")[-1]) and t != s]       # the prefixed spellings: kept together
+            rest = [t for t in nb if t not in pref]
+            cands += pref + rng.sample(rest, min(3, len(rest)))
         for t in cands:
             if t in seen or any(ord(c) > 127 for c in t):
                 continue
